@@ -718,9 +718,9 @@ func (a *Analysis) HandlerCheck() (out []Finding, checked int, conns map[int]boo
 			q2[fmt.Sprintf("%d/%d", e.Conn, s.Pkt.ID)] = s
 			continue
 		}
-		if e.Seq >= lastConsumed[e.Conn] {
-			continue // the last thing consumed on this connection: the handler may still be running
-		}
+		// (the last packet consumed on a connection is judged like any other: once the reader has the whole packet it
+		// hands it over whatever happens to the connection next; the handler's entry is recorded when it is entered,
+		// and the analysis runs after tear-down. Its stability interval simply has no end.)
 		pl := string(s.Pkt.Payload)
 		if mono {
 			lo, hi := bounds(e.Seq, e.Conn)
